@@ -191,6 +191,24 @@ def stress_case(item):
                 r, _ = pj.run(['redo-ifchange', top], slots=slots)
             rs = [r]
             expect_files = [top, 'a']
+        elif kind == 'brokenjs':
+            # MAKEFLAGS names a jobserver whose descriptors are not open (make without "+" in front of the rule) or are no pipe:
+            # redo has to say so and stop (or carry on serially) - not abort, not hang
+            _, variant, cmd = item
+            files, leaves = _fan_files(4)
+            pj = scen.Project(files, 'c09bjs')
+            extra = {'MAKEFLAGS': {'closed': ' -j --jobserver-auth=250,251', 'one-closed': ' -j --jobserver-fds=0,251',
+                                   'garbage': ' -j --jobserver-auth=x,y', 'negative': '--jobserver-auth=-1,-1', 'huge': ' --jobserver-auth=99999999,99999998'}[variant]}
+            r, _ = pj.run([cmd, 'all'], extra=extra, timeout=30)
+            rs = []
+            expect_files = []
+            for a in scen.crash_anoms(r, pj.logs_text(), kind):
+                if a['cls'] == 'timeout':
+                    return dict(verdict='inconclusive', why=a['what'][:500], sample=sample)
+                anoms.append(a)
+            sets['broken_jobserver_exit'] = ['%s:%s' % (variant, r.rc)]
+            if not anoms and r.rc == 0 and not os.path.exists(os.path.join(pj.top, 'all')):
+                anoms.append(dict(cls='missing', key='missing-output:brokenjs', what='exit 0 without output'))
         elif kind == 'contend':
             _, ninv, j, seed = item
             files, leaves = _fan_files(12, True, True)
@@ -290,6 +308,9 @@ def stress_items(tier, rnd):
                         items.append(('cheat', '%s%d' % (f, nsh), nsh + extra, own, rep))
                         for srep in range(2 if quick else 6):
                             items.append(('cheatstop', '%s%d' % (f, nsh), nsh + extra, own, rep * 10 + srep))
+    for variant in ('closed', 'one-closed', 'garbage', 'negative', 'huge'):
+        for cmd in ('redo', 'redo-ifchange'):
+            items.append(('brokenjs', variant, cmd))
     for k in range(12):
         for j in ((3,) if quick else (2, 3, 4)):
             for rep in range(1 if quick else 3):
@@ -311,7 +332,7 @@ RULE = ('layer 1 (systematic): a select()-gate in one redo process lets the harn
         'step to a depth bound, each path replayed from scratch (k<=3 children, 1-3 job slots, plain and nested one level, with and '
         'without log capture, with a failing child; lock-wait configurations in which the gated process also asks for a target that another invocation is building, gives its slot away, and has to find one again with nothing running - the only place where the timed token wait and borrowing a slot occur). layer 2 (stress): fans of 16-120 instant/jittered leaves at -j2..16 with own '
         'and inherited jobserver, the same target spelled several times on one command line, a second invocation arriving while a '
-        'target is being built, crossed dependency orders (two shapes, 0-11 quick targets in front), 2-8 contending invocations, the followed job borrowing a slot after a lock hand-over (and starting a job on it), the same while redo processes are stopped and continued at random (SIGSTOP/SIGCONT descheduling injection), a process waiting more than a minute for a job token while two 75 s jobs hold every slot (thorough), random parallel histories. Oracle: no panic / '
+        'target is being built, crossed dependency orders (two shapes, 0-11 quick targets in front), 2-8 contending invocations, the followed job borrowing a slot after a lock hand-over (and starting a job on it), the same while redo processes are stopped and continued at random (SIGSTOP/SIGCONT descheduling injection), a process waiting more than a minute for a job token while two 75 s jobs hold every slot (thorough), a MAKEFLAGS that names a jobserver whose descriptors are closed / garbage (must end with an error, not abort or hang), random parallel histories. Oracle: no panic / '
         'abort text or status in any redo process, no confirmed stuck state, exit 0 whenever all scripts succeed, tokens conserved '
         'on gate paths. Non-trivial: gate path with >=2 wake-ups, every stress build. Distinct: hash of scenario parameters and the '
         'delivered event sets.')
